@@ -92,3 +92,48 @@ Proof.
   cbn [app] in P. rewrite app_nil_r in P. change (len []) with 0 in P. rewrite N.add_0_l in P.
   unfold C05.Model.c05_optdata, opt_data. cbn [fst snd]. rewrite P. reflexivity.
 Qed.
+
+(* ---- the rows the harness still pushes with push_raw_option: edns-client-subnet
+   (with its cross-field check), Extended DNS Error, CHAIN, DAU, EXPIRE.
+   Their typed values satisfy the premises of typed_options_reread, and the
+   theorem applied to a concrete push returns them. *)
+Definition ex_opts : list (N * value) :=
+  [ (8,  [VNum 1; VNum 24; VNum 0; VBytes [192; 0; 2]])      (* 192.0.2.0/24 *)
+  ; (15, [VNum 15; VBytes [99; 97; 102; 233]])                (* EDE 15 with extra text *)
+  ; (13, [VName [[101; 120]; [99; 111; 109]]])                (* CHAIN ex.com. *)
+  ; (5,  [VBytes [8; 13]])                                    (* DAU *)
+  ; (9,  [VBytes [0; 0; 14; 16]]) ].                          (* EXPIRE 3600 *)
+
+Example ex_opts_wf : Forall wf_typed ex_opts.
+Proof. unfold ex_opts. repeat constructor; cbn [fst]; try lia; vm_compute; reflexivity. Qed.
+
+(* a value that breaks the cross-field check of edns-client-subnet (a bit set
+   beyond the prefix) is not a typed option *)
+Example ex_subnet_bad : ~ wf_typed (8, [VNum 1; VNum 23; VNum 0; VBytes [192; 0; 3]]).
+Proof. intros (_ & H). vm_compute in H. discriminate. Qed.
+
+(* the theorem applied to a concrete push into a fresh message (hash compressor):
+   its premises hold, the push succeeds, and C05's iterator and rows return ex_opts *)
+Example typed_options_example :
+  let c := mkCfg None false KHash in
+  let oh := mkOH 1232 None 0 32768 true in
+  match init c with
+  | Some s0 =>
+      exists w', opt_writer c oh (typed_opts ex_opts) (b_w s0) = WOk w' /\
+        opt_iter (S (length ex_opts)) (w_buf w') (mlen (w_buf (b_w s0)) + 11) (mlen (w_buf w')) [] = Ok (map plain_of ex_opts) /\
+        Forall (fun o => C05.Model.c05_optdata (fst o) (opt_data o) = Ok (snd o)) ex_opts /\
+        mlen (w_buf w') = 12 + 11 + 47
+  | None => False
+  end.
+Proof.
+  intros c oh. destruct (init c) as [s0|] eqn:HI; [|vm_compute in HI; discriminate].
+  destruct (init_good c s0 HI) as (TB & SI & CI & L).
+  assert (HW : WG c ok12 (b_w s0)) by (split; [exact TB|split; [exact SI|exact CI]]).
+  destruct (opt_writer c oh (typed_opts ex_opts) (b_w s0)) as [w'| | |] eqn:E.
+  2-4: (vm_compute in HI; injection HI as <-; vm_compute in E; discriminate).
+  exists w'. split; [reflexivity|].
+  assert (Hoh : wf_oh oh) by (unfold wf_oh, oh; cbn; lia).
+  destruct (typed_options_reread c oh ex_opts (b_w s0) w' HW ltac:(lia) Hoh ex_opts_wf E) as (_ & _ & It & Fa).
+  split; [exact It|]. split; [exact Fa|].
+  vm_compute in HI. injection HI as <-. vm_compute in E. injection E as <-. reflexivity.
+Qed.
